@@ -4,7 +4,7 @@ import json
 import os
 import random
 
-from ..engines import envelope, threads
+from ..engines import delegation, envelope, rootchain, threads
 from ..gen import entries as gentries, jsonvals, keys as gkeys
 from ..monitors import boundary
 from ..refs import canonjson, ed25519, models, openpgp
@@ -46,6 +46,8 @@ def plan(tier, seed):
         s.update({k: v for k, v in c.items() if k != "name"})
         specs.append(s)
     specs.append({"kind": "libsigner", "count": 60 if tier == "quick" else 1500, "config": "default"})
+    for _ in range(2 if tier == "quick" else 6):
+        specs.append({"kind": "built_on", "count": 500 if tier == "quick" else 6000, "config": "default"})
     for c in (CONFIGS[0], CONFIGS[1], CONFIGS[5]):
         s = {"kind": "fixtures", "config": c["name"]}
         s.update({k: v for k, v in c.items() if k != "name"})
@@ -213,6 +215,30 @@ def run_bigjunk(spec, rec, lib):
         judge(case, rec, lib, "bigjunk")
 
 
+def run_built_on(spec, rec, lib):
+    """completeness of everything built on the envelope verifier: whenever the named role's (or both root rules')
+    thresholds are met by valid signatures, verify_delegation / verify_root return normally - whatever else the
+    envelope carries and whatever the signed content looks like"""
+    rng = random.Random(spec["seed"])
+    for i in range(spec["count"]):
+        if i % 3 == 0:
+            case = rootchain.gen_pair(rng, rng.choice(["accept", "accept", "old_rule"]))
+            model, failed, out, _m = rootchain.evaluate(case, lib)
+            fn = "verify_root"
+            key = "root|%s|%s" % (case["row"], len(case["new"]["signatures"]) if isinstance(case["new"].get("signatures"), dict) else "?")
+        else:
+            case = delegation.gen_case(rng, stratum=rng.choice(["named", "named", "named_junk", "below", "other_role"]))
+            model, failed, out, _m = delegation.evaluate(case, lib)
+            fn = "verify_delegation"
+            key = "deleg|" + delegation.dkey(case, failed)
+        rec.case(key, nontrivial=model.v == models.ACCEPT)
+        if model.v == models.ACCEPT:
+            rec.count("model_accepts_built_on:" + fn)
+            if not out.accepted:
+                rec.violation(boundary.mechanism("false-reject", fn, "accept", out),
+                              "thresholds met by valid signatures but %s raised %s: %s" % (fn, out.cls, (out.msg or "")[:140]), dict(case, config="default"))
+
+
 def run_threads(spec, rec, lib):
     rng = random.Random(spec["seed"])
     for case, model, out in threads.run(lib, rng, spec["count"], spec["threads"], rec, spec["seed"]):
@@ -225,6 +251,8 @@ def run_threads(spec, rec, lib):
 def run_shard(spec, rec, lib):
     if spec["kind"] == "threads":
         return run_threads(spec, rec, lib)
+    if spec["kind"] == "built_on":
+        return run_built_on(spec, rec, lib)
     {"env": run_env, "libsigner": run_libsigner, "fixtures": run_fixtures, "bigjunk": run_bigjunk}[
         spec["kind"]
     ](spec, rec, lib)
@@ -239,7 +267,12 @@ def finish(merged, tier, seed):
 
 def replay(case, rec, lib):
     k = case.get("kind")
-    if k == "env":
+    if k in ("rootpair", "deleg"):
+        model, failed, out, _m = (rootchain if k == "rootpair" else delegation).evaluate(case, lib)
+        rec.case("replay")
+        if model.v == models.ACCEPT and not out.accepted:
+            rec.violation(boundary.mechanism("false-reject", "verify_root" if k == "rootpair" else "verify_delegation", "accept", out), "replay", case)
+    elif k == "env":
         judge(case, rec, lib, case.get("config", "default"))
     elif k == "perm":
         m1, o1, _a, _b = envelope.evaluate(case["a"], lib)
